@@ -1,7 +1,7 @@
 """C15 - lists behave like one shared growable array.
 Decided clauses: lock hygiene (no double acquisition, two lists held together
 proven distinct) - the clause 'comparing two lists always terminates'."""
-from .. import mir, locks
+from .. import mir, locks, hir
 from ..facts import relfile
 from ..report import RuleResult
 
@@ -111,6 +111,98 @@ def _analyse(bodies, res_m1, res_m2, summaries):
                                        % (name, full, b.blocks[tok]["term"]["line"]))
 
 
+def rule_m4(F):
+    """Index parameters of RawList accessors are range-checked against len before any address is computed."""
+    from ..report import RuleResult as RR
+    r = RR("C15.M4", "out-of-range get/swap: every element address is computed only after `idx < len` held on that path (and swap excludes i == j)", floor=3)
+    for fn in ("value::list::RawList::get", "value::list::RawList::swap"):
+        b = F.body(fn)
+        if b is None or not b.mir:
+            r.missing(fn)
+            continue
+        defs = mir.Defs(b)
+        dom = mir.dominators(b)
+        locs = b.mir["locals"]
+        argc = b.mir["argc"]
+        idx_params = [i for i in range(2, argc + 1) if locs[i]["ty"] == "usize"]
+        for P in idx_params:
+            pname = locs[P].get("name") or "arg%d" % P
+            # comparisons P >= self.len / P < self.len
+            guards = []
+            for bi, blk in enumerate(b.blocks):
+                for st in blk["stmts"]:
+                    if st["k"] == "assign" and st["rv"]["k"] == "bin" and st["rv"]["op"] in ("Ge", "Lt", "Gt", "Le"):
+                        a, c = st["rv"]["a"], st["rv"]["b"]
+                        if mir.is_place_op(a) and mir.origin_key(b, defs, a[1]) == "arg%d" % P and mir.is_place_op(c) and "len" in mir.origin_key(b, defs, c[1]):
+                            guards.append((st["rv"]["op"], bi, st["p"][0]))
+            inrange = []
+            for (op, bi, res) in guards:
+                t = b.blocks[bi]["term"]
+                if t["k"] != "switch" or not mir.is_place_op(t["o"]) or t["o"][1][0] != res:
+                    continue
+                if op == "Ge":
+                    inrange += [x[1] for x in t["targets"] if x[0] == 0]
+                elif op == "Lt":
+                    inrange.append(t["otherwise"])
+            uses = []
+            for bi, t in mir.calls(b):
+                nm = hir.last(mir.callee_def(t)) if False else mir.callee_def(t).rsplit("::", 1)[-1]
+                if nm in ("offset_of", "byte_add", "add", "byte_offset", "offset"):
+                    for a in t["args"][1:]:
+                        if mir.is_place_op(a):
+                            # does the argument derive from P?
+                            seen = set()
+                            work = [a[1][0]]
+                            hit = False
+                            while work:
+                                l = work.pop()
+                                if l in seen:
+                                    continue
+                                seen.add(l)
+                                if l == P:
+                                    hit = True
+                                    break
+                                for d in defs.defs.get(l, []):
+                                    if d[2] == "call":
+                                        work += [x[1][0] for x in d[3]["args"] if mir.is_place_op(x)]
+                                    elif d[2] == "assign":
+                                        rv = d[3]["rv"]
+                                        for k in ("o", "a", "b"):
+                                            if k in rv and mir.is_place_op(rv[k]):
+                                                work.append(rv[k][1][0])
+                            if hit:
+                                uses.append(bi)
+            key = "%s(%s)" % (fn.rsplit("::", 1)[-1], pname)
+            r.inst(key, {"fn": fn, "index": pname, "guards": [(g[0], g[1]) for g in guards], "address_computations": sorted(set(uses))})
+            if not uses:
+                continue
+            bad_ops = [g[0] for g in guards if g[0] in ("Gt", "Le")]
+            ok = bool(inrange) and all(any(g in dom[u] for g in inrange) for u in uses)
+            if not ok:
+                r.bad(fn, key, relfile(b.file), b.line,
+                      "an element address is computed from `%s` on a path where `%s < len` has not been established%s: an out-of-range index reads or swaps memory outside the list instead of returning None / doing nothing"
+                      % (pname, pname, " (the comparison is %s, which lets %s == len through)" % (bad_ops[0], pname) if bad_ops else ""))
+    sb = F.body("value::list::RawList::swap")
+    if sb is not None and sb.mir:
+        defs = mir.Defs(sb)
+        dom = mir.dominators(sb)
+        eqs = []
+        for bi, blk in enumerate(sb.blocks):
+            for st in blk["stmts"]:
+                if st["k"] == "assign" and st["rv"]["k"] == "bin" and st["rv"]["op"] in ("Eq", "Ne"):
+                    a, c = st["rv"]["a"], st["rv"]["b"]
+                    if mir.is_place_op(a) and mir.is_place_op(c) and {mir.origin_key(sb, defs, a[1]), mir.origin_key(sb, defs, c[1])} == {"arg2", "arg3"}:
+                        t = blk["term"]
+                        if t["k"] == "switch":
+                            distinct = [x[1] for x in t["targets"] if x[0] == 0] if st["rv"]["op"] == "Eq" else [t["otherwise"]]
+                            eqs += distinct
+        sw = [bi for bi, t in mir.calls(sb) if "swap_nonoverlapping" in mir.callee_def(t)]
+        r.inst("swap i != j", {"distinct_edges": eqs, "swap_sites": sw})
+        if sw and not (eqs and all(any(e in dom[x] for e in eqs) for x in sw)):
+            r.bad(sb.path, "swap i == j", relfile(sb.file), sb.line, "swap_nonoverlapping is reachable with i == j (overlapping regions are undefined behaviour)")
+    return r
+
+
 def _scope(F):
     return [b for b in F.all_bodies() if b.mir]
 
@@ -128,7 +220,7 @@ def rules(ctx):
                    "value::list::ErasedList::concat"):
         if not F.has(anchor):
             m1.missing(anchor)
-    return [m1, m2]
+    return [m1, m2, rule_m4(F)]
 
 
 def canary(C):
